@@ -167,3 +167,42 @@ def r13b(ctx):
             rest = pfind("V_ns[-1] += V_mod", ns, {"V_ns": b2["V_ns"], "V_mod": b["V_mod"]})
             good = good or (n_x == "self.frame.npartitions" and bool(rest))
     (ctx.ok if good else ctx.bad)("_repartition.RepartitionToMore._nsplits", tm.module.loc(ns), "splits sum to the requested partition count (remainder added)" if good else "RepartitionToMore._nsplits no longer distributes new_partitions as div per partition plus the remainder: the output has a different partition count than reported")
+
+
+@rule(
+    "R13c",
+    ["C13"],
+    """A REPARTITION BY DIVISIONS OR FREQUENCY IS ONLY A NO-OP WHEN THE DIVISIONS AGREE: returning the input unchanged (`return self.frame`)
+    from a repartitioning operator that was asked for a LAYOUT (RepartitionFreq, RepartitionDivisions - the heirs of Repartition whose
+    parameters carry no partition count) is sound only under a test that compares divisions; an equal partition COUNT says nothing
+    about where the boundaries are (4 daily partitions are not 4 partitions split at week starts). The count-based request
+    (`new_partitions == frame.npartitions`) is the one place where the count suffices.""",
+)
+def r13c(ctx):
+    model = ctx.model
+    base = model.cls("Repartition", "_repartition")
+    n = 0
+    for c in model.subclasses(base, strict=True):
+        try:
+            params = model.parameters(c)
+        except Exception:  # noqa: BLE001
+            continue
+        if "new_partitions" in params:
+            continue
+        for mname in ("_lower", "_simplify_down"):
+            mem = c.members.get(mname)
+            if mem is None or mem.kind == "attr":
+                continue
+            fn = mem.node
+            for p in flow.returns(fn):
+                v = p.stmt.value
+                if v is None or ast.unparse(v) != "self.frame":
+                    continue
+                n += 1
+                cid = f"{c.qual}.{mname}:returns-input"
+                facts = [ast.unparse(t) for t, pol in flow.facts(p) if pol]
+                if any(isinstance(t, ast.Compare) and isinstance(t.ops[0], ast.Eq) and "divisions" in ast.unparse(t) for t, pol in flow.facts(p) if pol):
+                    ctx.ok(cid, c.module.loc(p.stmt), "the input is returned unchanged only when its divisions are the requested ones")
+                else:
+                    ctx.bad(cid, c.module.loc(p.stmt), f"{c.qual}.{mname} returns its input unchanged under {facts or 'no condition'}: the request is a layout (divisions / a frequency), and a matching partition count does not make the boundaries match - the result keeps the input's divisions while the node reports the requested ones")
+    ctx.ok("layout-repartitions-scanned", "", f"{n} identity returns in layout-based repartitions")
